@@ -46,18 +46,19 @@ Pieces == {
   "lit",       \* 'a b'                 (a quoted literal)
   "lit_op",    \* 'q - r'               (a quoted literal containing a spaced operator)
   "comp",      \*  = / < / >            (a comparison character between blanks)
-  "punct"      \* , : ; ! ? @ # % /     (other punctuation)
+  "punct",     \* , : ; ! ? @ # % /     (other punctuation)
+  "remark"     \*  (note 2)             (a parenthesised remark after a blank: several words, not an argument list)
 }
 Spaced == {"plus_sp", "minus_sp", "star_sp", "div_sp", "mod_sp"}
 Tight == {"minus", "plus", "star", "pipe", "paren", "bracket", "brace"}
-Operand == {"num", "neg", "dec", "word", "words", "date", "time", "geo", "uri", "ref", "func", "call", "paren", "bracket", "brace", "lit", "lit_op"}
+Operand == {"num", "neg", "dec", "word", "words", "date", "time", "geo", "uri", "ref", "func", "call", "paren", "bracket", "brace", "lit", "lit_op", "remark"}
 Has(s, K) == \E i \in 1..Len(s) : s[i] \in K
 \* a spaced operator only counts as one when it stands between two operands
 SpacedOpAt(s, i) == s[i] \in Spaced /\ i > 1 /\ i < Len(s) /\ s[i - 1] \in Operand /\ s[i + 1] \in Operand
 HasSpacedOp(s) == \E i \in 1..Len(s) : SpacedOpAt(s, i)
 OnlyMinusSpaced(s) == \A i \in 1..Len(s) : SpacedOpAt(s, i) => s[i] = "minus_sp"
 \* (a quoted literal without operators inside is just text in quotes)
-PlainValue == {"num", "neg", "dec", "word", "words", "date", "time", "geo", "uri", "punct", "comp", "lit"}
+PlainValue == {"num", "neg", "dec", "word", "words", "date", "time", "geo", "uri", "punct", "comp", "lit", "remark"}
 \* a name immediately followed by a parenthesis is a function call
 \* (a hyphen is a name character: name-(x) is a call too)
 CallLike(s) == \E i \in 1..(Len(s) - 1) : s[i] \in {"word", "words", "uri"} /\ (s[i + 1] = "paren" \/ (i + 2 <= Len(s) /\ s[i + 1] = "minus" /\ s[i + 2] = "paren"))
